@@ -314,10 +314,10 @@ class Field(Operator):
                 new_shape[self._domain.axes[ind][0]:
                           self._domain.axes[ind][-1]+1] = wgt.shape
                 wgt = wgt.reshape(new_shape)
-                aout *= wgt**power
+                aout = aout * wgt**power
         fct = fct**power
         if fct != 1.:
-            aout *= fct
+            aout = aout * fct
 
         return Field(self._domain, AnyArray(aout).at(self._val.device_id))
 
